@@ -153,12 +153,17 @@ def generate(seed: int, index: int, tier: str) -> dict:
             if abs(sd) < 1e-3:
                 continue
             cur = float(np.asarray(r) @ np.asarray(base_pt)) + c0
-            for delta in (0.05, -0.05):
+            width = (hi - lo) if (np.isfinite(lo) and np.isfinite(hi)) else np.inf
+            step = 0.05 if width > 0.2 else width / 4.0
+            for delta in (step, -step):
                 t = (b + delta - cur) / sd
                 probes.append([float(v) for v in (np.asarray(base_pt) + t * d)])
     script = []
     alpha = gen_scipy.alphabet(scn)
     for p in probes:
+        # visit the starting point in between: probes that straddle a narrow band at a large |x| lie closer
+        # together than the plug-in's point tolerance (they would legitimately count as one point, C07)
+        script.append({"q": "f", "k": None, "pt": -1, "pts": [-1]})
         script.append({"q": "f", "k": None, "pt": p, "pts": [p]})
         for q, k in alpha:
             if q != "f":
